@@ -37,8 +37,8 @@ Proof.
   intros IC [S1 S2a S2b Shb Ssc Sun] H.
   pose proof (c_sig s IC) as Csig. pose proof (c_closing0 s IC) as Ccl.
   destruct l; step_cases H.
-  all: constructor; simpl; intros; try solve [auto]; upd_all; try solve [auto]; try (timeout 20 fin).
-  all: inst_all; try (timeout 20 fin); try (timeout 20 fin2); try (timeout 20 fin3).
+  all: constructor; simpl; intros; try solve [auto]; upd_all; try solve [auto]; fin.
+  all: inst_all; fin; fin2; fin3.
 Qed.
 
 Lemma InvS_exec s ls : Inv s -> InvS s -> InvS (exec s ls).
@@ -59,7 +59,7 @@ Qed.
 (** labels of the system: everything except the environment's choices *)
 Definition sys_label (l : label) : bool :=
   match l with
-  | LCall _ | LRhCall _ | LEnvCancel | LEmit _ | LFinish _ | LTimeout _ | LSubCloseRet _ => false
+  | LCall _ | LRhCall _ | LEnvCancel | LEmit _ | LFinish _ | LFail _ | LTimeout _ | LSubCloseRet _ => false
   | _ => true
   end.
 
